@@ -257,6 +257,57 @@ pub fn run_c11(ctx: &mut Ctx) {
             }
         }
     }
+    // real-world vocabulary: every registry -u- keyword (key x type), -t- field (key x value) and attribute as the only
+    // extension content of one operand (Locale::matches must ignore it whatever it says), against the bare identifier and
+    // against the identifier that carries the same word as a variant; and every ordered pair of real-world languages
+    {
+        use crate::lexicon as lx;
+        let mut unit2 = 0usize;
+        let mut pair = |ctx: &mut Ctx, a: String, b: String| {
+            unit2 += 1;
+            if unit2 % ctx.nshards != ctx.shard {
+                return;
+            }
+            let (Ok(la), Ok(lb)) = (a.parse::<Locale>(), b.parse::<Locale>()) else { return };
+            mon::begin_case(a.as_bytes());
+            ctx.count("lexicon:pairs");
+            judge_pair(ctx, &la, &lb);
+        };
+        for k in lx::UKEYS {
+            for t in lx::UTYPES {
+                if !(crate::refspec::is_ukey(k.as_bytes()) && (3..=8).contains(&t.len())) {
+                    continue;
+                }
+                pair(ctx, format!("en-US-u-{}-{}", k, t), "en-US".into());
+                if crate::refspec::is_variant(t.as_bytes()) {
+                    pair(ctx, format!("en-US-u-{}-{}", k, t), format!("en-US-{}", t));
+                    pair(ctx, format!("en-US-{}", t), format!("en-US-u-{}-{}", k, t));
+                }
+            }
+        }
+        for k in lx::TKEYS {
+            for t in lx::TVALUES {
+                if (3..=8).contains(&t.len()) {
+                    pair(ctx, format!("de-t-{}-{}", k, t), "de".into());
+                    pair(ctx, "de-AT".into(), format!("de-t-de-AT-{}-{}", k, t));
+                }
+            }
+        }
+        for t in lx::UTYPES {
+            if (3..=8).contains(&t.len()) {
+                pair(ctx, format!("fr-CA-u-{}", t), "fr-CA".into());
+            }
+        }
+        let langs: Vec<&str> = lx::LANGS.iter().copied().filter(|w| crate::refspec::is_lang(w.as_bytes())).collect();
+        for a in &langs {
+            for b in &langs {
+                pair(ctx, a.to_string(), b.to_string());
+                if a != b {
+                    pair(ctx, format!("{}-Latn-001", a), format!("{}-Latn-001", b));
+                }
+            }
+        }
+    }
     ctx.extra.insert("product_domain".into(), json!({"identifiers": ids.len(), "pairs": ids.len() * ids.len(), "flag_pairs": 4, "extension_combinations_per_pair": 4}));
     mon::idle();
     // random pairs: b is a perturbation of a (fields dropped / changed) so that all outcomes occur
@@ -802,6 +853,15 @@ pub fn run_c12(ctx: &mut Ctx) {
                 add(w.to_string(), &mut pool);
             }
         }
+        // whole real-world identifiers (those the library accepts), each with the re-parse of its own serialisation
+        for w in lx::IDS {
+            if let Ok(l) = w.parse::<Locale>() {
+                if let Ok(twin) = l.to_string().parse::<Locale>() {
+                    pool.push(item(twin, "reparse of a lexicon identifier", json!({"text": w})));
+                }
+                pool.push(item(l, "lexicon identifier", json!({"text": w})));
+            }
+        }
     }
     ctx.extra.insert("pool".into(), json!({"values": pool.len(), "logical_values": logical, "ordered_pairs": pool.len() * pool.len()}));
     // (a) all ordered pairs, rows sharded
@@ -963,6 +1023,9 @@ pub fn run_c12(ctx: &mut Ctx) {
             format!("{}-", a.ids),
             format!("{}x", a.ids),
             format!("{}-x-{}", a.ids, a.ids),
+            format!("{}-nedis", a.ids),
+            format!("{}-nedis-valencia", a.ids),
+            format!("{}-US", a.ids),
             other.clone(),
             String::new(),
         ];
@@ -978,7 +1041,7 @@ pub fn run_c12(ctx: &mut Ctx) {
         // subtags
         let li = &a.loc.id;
         let lt = li.language.as_str().to_string();
-        for c in [lt.clone(), lt.to_ascii_uppercase(), format!("{}x", lt), format!("{}-x", lt), format!("{}-Latn-US", lt), "und".to_string(), String::new()] {
+        for c in [lt.clone(), lt.to_ascii_uppercase(), format!("{}x", lt), format!("{}-x", lt), format!("{}-Latn-US", lt), format!("{}{}", lt, lt), format!("{}abcdefgh", lt), "und".to_string(), String::new()] {
             ctx.evals += 1;
             if (li.language == c.as_str()) != (c == lt) {
                 viol(ctx, "subtag-eq-str", json!({"type": "language", "value": lt, "str": c}), format!("Language {:?} == {:?} is {}", lt, c, li.language == c.as_str()));
@@ -986,7 +1049,7 @@ pub fn run_c12(ctx: &mut Ctx) {
         }
         if let Some(s) = li.script {
             let t = s.as_str().to_string();
-            for c in [t.clone(), t.to_ascii_uppercase(), t.to_ascii_lowercase(), t[..3].to_string()] {
+            for c in [t.clone(), t.to_ascii_uppercase(), t.to_ascii_lowercase(), t[..3].to_string(), format!("{}x", t), format!("{}{}", t, t), format!("{}-{}", t, t)] {
                 ctx.evals += 1;
                 if (s == c.as_str()) != (c == t) {
                     viol(ctx, "subtag-eq-str", json!({"type": "script", "value": t, "str": c}), format!("Script {:?} == {:?} is {}", t, c, s == c.as_str()));
@@ -995,7 +1058,7 @@ pub fn run_c12(ctx: &mut Ctx) {
         }
         if let Some(s) = li.region {
             let t = s.as_str().to_string();
-            for c in [t.clone(), t.to_ascii_lowercase(), format!("{}1", t)] {
+            for c in [t.clone(), t.to_ascii_lowercase(), format!("{}1", t), format!("{}{}", t, t), format!("{}AB", t)] {
                 ctx.evals += 1;
                 if (s == c.as_str()) != (c == t) {
                     viol(ctx, "subtag-eq-str", json!({"type": "region", "value": t, "str": c}), format!("Region {:?} == {:?} is {}", t, c, s == c.as_str()));
@@ -1004,7 +1067,7 @@ pub fn run_c12(ctx: &mut Ctx) {
         }
         for v in li.variants() {
             let t = v.as_str().to_string();
-            for c in [t.clone(), t.to_ascii_uppercase(), t[..t.len() - 1].to_string(), format!("{}1", t), format!("{}-{}", t, t)] {
+            for c in [t.clone(), t.to_ascii_uppercase(), t[..t.len() - 1].to_string(), format!("{}1", t), format!("{}-{}", t, t), format!("{}{}", t, t), format!("{}abcdefgh", t)] {
                 ctx.evals += 1;
                 if (*v == c.as_str()) != (c == t) || (*v == *c.as_str()) != (c == t) {
                     viol(ctx, "subtag-eq-str", json!({"type": "variant", "value": t, "str": c}), format!("Variant {:?} == {:?} is {}", t, c, *v == c.as_str()));
